@@ -3,6 +3,7 @@
   {"fatal": msg} means the driver could not interpret the line (never a model verdict).
 -/
 import Driver.C08
+import Driver.C11
 import Driver.C16
 import Driver.C17
 open Lean CR.Drv
@@ -10,6 +11,7 @@ open Lean CR.Drv
 def dispatch (prop op : String) (a : Json) : P Json :=
   match prop with
   | "C08" => C08.handle op a
+  | "C11" => C11.handle op a
   | "C16" => C16.handle op a
   | "C17" => C17.handle op a
   | _ => throw s!"unknown property {prop}"
